@@ -12,7 +12,8 @@
                      of the proxied object, from the destination (its owner at that point, C32/Spec.v), for the
                      proxy's interface: changed sets, invalidated clears; uncached names hold nothing.
    caught_up x       the caching task has failed or finds its update stream empty.
-   w_lost            the release_buffered class of C32 (the only class of C32 that can occur here). *)
+   Known_C31         w_lost (cw (crun ..)) = true: the release_buffered class of C32 (the only class of C32 that
+                     can occur here: PropertiesChanged never looks like NameOwnerChanged). *)
 From Coq Require Import List NArith Bool.
 Import ListNotations.
 From ZV Require Import Base.Bytes C32.Model C32.Spec C31.Model C31.Spec C31.Proofs C31.Streams C31.Witness.
@@ -23,9 +24,8 @@ Local Open Scope N_scope.
    caught up, each cached value is exactly what the messages received so far imply in receive order; the cache
    is reported ready only after the snapshot was received. *)
 Theorem C31_cache_partial : forall (pc : pcfg) (h : list wmsg) (sched : list caction),
-  bus_history (scfg pc) h = true ->
+  bus_history (scfg pc) h = true -> ~ Known_C31 pc h sched ->
   let x := crun pc h sched in
-  w_lost (cw x) = false ->
   (c_ready x <> Some true -> forall p, cached x p = None) /\
   (caught_up x -> forall p, cached x p = spec_cache pc (received x h) p) /\
   (c_ready x = Some true -> spec_ready pc (received x h) = Some true).
@@ -71,7 +71,7 @@ Print Assumptions C31_stream_reports_cached.
 Theorem C31_partial_nonvacuous :
   bus_history (scfg pc_w) h_clean = true /\
   let x := crun pc_w h_clean sched_clean in
-  w_lost (cw x) = false /\ caught_up x /\ received x h_clean = h_clean /\ c_ready x = Some true /\
+  ~ Known_C31 pc_w h_clean sched_clean /\ caught_up x /\ received x h_clean = h_clean /\ c_ready x = Some true /\
   map (cached x) [0; 1; 2; 3] = [Some 7; None; Some 4; None] /\
   map (spec_cache pc_w h_clean) [0; 1; 2; 3] = [Some 7; None; Some 4; None] /\
   c_seen x = [(0, Some 7)].
